@@ -305,6 +305,10 @@ def _may_be_same_list(ctx: Ctx, f: Func, loop: ast.For, cn: N, e, loopvars: Set[
         recv_is_loopvar = isinstance(fn, ast.Attribute) and isinstance(fn.value, ast.Name) and fn.value.id in loopvars
         arg_is_loopvar = any(isinstance(x, ast.Name) and x.id in loopvars for x in c.args)
         for g, recv in ctx.env.callees(f, c):
+            if g is f and (recv_is_loopvar or arg_is_loopvar):
+                # the function recursing on an *element* of the iterated list works on that element's own child list
+                # (and below): by induction its writes are the ones this very loop shows directly, one level down
+                continue
             for ge in ctx.fx.summary[g].values():
                 if ge.key[0] != e.op or ge.field != e.field or ge.origin != e.origin or ge.text != e.text:
                     continue
